@@ -26,9 +26,10 @@ type sfField struct {
 }
 
 type sfProg struct {
-	Fields [2][2]sfField // struct index, field index
-	Const  bool          // const S0 C0 = {}
-	Layout int           // 0: one file; 1: S1,E,K in f1; 2: S1 in f1, E,K in f2
+	Fields   [2][2]sfField // struct index, field index
+	Typedefs bool          // typedef S0 A0; typedef S1 A1
+	Const    bool          // const S0 C0 = {}
+	Layout   int           // 0: one file; 1: S1,E,K in f1; 2: S1 in f1, E,K in f2
 }
 
 var sfOptions = []sfField{
@@ -39,8 +40,19 @@ var sfOptions = []sfField{
 	{"S1", ""}, {"S1", "{}"},
 }
 
+// sfOptionsTypedef: the struct types also through typedefs (A0 = typedef S0, A1 =
+// typedef S1, declared next to their structs).
+var sfOptionsTypedef = []sfField{
+	{"i32", ""}, {"i32", "1"}, {"E", "E.A"},
+	{"S0", ""}, {"S0", "{}"}, {"S1", ""}, {"S1", "{}"},
+	{"A0", ""}, {"A0", "{}"}, {"A1", ""}, {"A1", "{}"},
+}
+
 // fileOf says where a name lives under the layout.
 func (p *sfProg) fileOf(name string) int {
+	if name == "A0" || name == "A1" {
+		name = "S" + name[1:]
+	}
 	switch p.Layout {
 	case 1:
 		if name == "S1" || name == "E" || name == "K" {
@@ -97,6 +109,10 @@ func (p *sfProg) render() map[string]string {
 		}
 		body[f] += fmt.Sprintf("struct %s { %s }\n", sn, strings.Join(fs, "; "))
 	}
+	if p.Typedefs {
+		body[p.fileOf("S0")] += "typedef S0 A0\n"
+		body[p.fileOf("S1")] += "typedef S1 A1\n"
+	}
 	body[p.fileOf("E")] += "enum E { A = 1, B = 5 }\n"
 	body[p.fileOf("K")] += "const i32 K = 7\n"
 	if p.Const {
@@ -125,6 +141,8 @@ func (p *sfProg) typeRepr(t string) string {
 		return t
 	case "E":
 		return fmt.Sprintf("%s:E(enum)", resolve.Path(p.fileOf("E")))
+	case "A0", "A1":
+		return fmt.Sprintf("%s:%s(typedef)", resolve.Path(p.fileOf(t)), t)
 	}
 	return fmt.Sprintf("%s:%s(struct)", resolve.Path(p.fileOf(t)), t)
 }
@@ -156,7 +174,7 @@ func (p *sfProg) value(si, fi int, stack map[[2]int]bool) (string, bool) {
 		}
 		stack[key] = true
 		defer delete(stack, key)
-		return p.structValue(int(fd.Type[1]-'0'), stack)
+		return p.structValue(int(fd.Type[1]-'0'), stack) // S<k> and A<k> (typedef of S<k>) alike
 	}
 	return "", false
 }
@@ -207,28 +225,38 @@ func (p *sfProg) expect() (lines []string, valid bool) {
 }
 
 func (r *runner) structFamily() {
+	r.structAlphabet(sfOptions, false)
+	r.structAlphabet(sfOptionsTypedef, true)
+}
+
+func (r *runner) structAlphabet(opts []sfField, typedefs bool) {
 	w := r.w
-	n := len(sfOptions)
+	n := len(opts)
 	total := n * n * n * n
 	for code := 0; code < total; code++ {
 		var p sfProg
+		p.Typedefs = typedefs
 		c := code
+		needed := !typedefs
 		for si := 0; si < 2; si++ {
 			for fi := 0; fi < 2; fi++ {
-				p.Fields[si][fi] = sfOptions[c%n]
+				p.Fields[si][fi] = opts[c%n]
 				c /= n
+				if p.Fields[si][fi].Type[0] == 'A' {
+					needed = true // the typedef alphabet only adds programs that use a typedef
+				}
 			}
 		}
 		// at least one struct-typed field, otherwise nothing depends on another definition's defaults
 		hasStruct := false
 		for si := 0; si < 2; si++ {
 			for fi := 0; fi < 2; fi++ {
-				if p.Fields[si][fi].Type[0] == 'S' {
+				if t := p.Fields[si][fi].Type[0]; t == 'S' || t == 'A' {
 					hasStruct = true
 				}
 			}
 		}
-		if !hasStruct {
+		if !hasStruct || !needed {
 			continue
 		}
 		for _, withConst := range []bool{false, true} {
